@@ -591,8 +591,10 @@ func RunReg(p *plan.Plan) *plan.Result {
 			break
 		}
 		if want.Hang {
+			// abandoned by the simulator: it may have left locks held or caches
+			// half-filled, so the rest of this run gives no verdict
 			st["skipped_budget"]++
-			continue
+			break
 		}
 		if histOut != nil && p.Run%histEvery == 0 {
 			rec := HistRecord{Op: step.Op, Ctx: describeCtx(a.C), N: a.N, S: a.S, I: a.I != nil, F: a.F != nil, Out: want.String()}
@@ -759,7 +761,7 @@ func RunReg(p *plan.Plan) *plan.Result {
 			}
 		}
 	}
-	if p.Run%4 == 0 || lastReEval >= 0 {
+	if (p.Run%4 == 0 || lastReEval >= 0) && !peekUnwound() {
 		reEvaluate(ring, addViol, len(tk.Steps), st)
 	}
 	if globalSnap != nil {
